@@ -20,7 +20,7 @@ def run(ctx, repo):
         'events of look-ahead inside it (R-EMITTER-LOOKAHEAD-TABLE) and the per-document state of emitter, serializer and '
         'representer is reset between documents (R-EMITTER-DOC-RESET, R-DOC-RESET, R-FIRST-DOCUMENT-STATE-ONCE); the serializer '
         'brackets every node graph in exactly one DocumentStart / DocumentEnd pair (R-EVENT-BRACKETS). READING: "---" / "..." '
-        'are recognised at column 0 only and end plain / quoted scalars there (R-DOCMARKER-COLUMN0); the parser accepts exactly '
+        'are recognised at column 0 only and end plain / quoted scalars there (R-DOCMARKER-COLUMN0), with the same follow set at every place that tests for a marker (R-DOCMARKER-FOLLOW-AGREE) and through the API of the reader only (R-BUFFER-ENCAPSULATED); the parser accepts exactly '
         'the documented token grammar for streams of several documents (R-PARSER-GRAMMAR), sets directives and tag handles anew '
         'for each document (R-DIRECTIVES-RESET), and a document is delivered without looking at what follows its end marker '
         '(R-NO-LOOKAHEAD-AT-DOC-END); the iterating API functions yield one document per step (R-API-GENERATORS). NOT decided: '
@@ -40,6 +40,8 @@ def run(ctx, repo):
     ctx.call(R6B.r_first_document_state_once, repo)
     ctx.call(RR2.r_event_brackets, repo)
     ctx.call(RX.r_docmarker_column0, repo)
+    ctx.call(R10.r_docmarker_follow_agree, repo)
+    ctx.call(RX.r_buffer_encapsulated, repo)
     ctx.call(RG.r_parser_grammar, repo, max_len=8 if ctx.tier == 'thorough' else 6)
     ctx.call(RS.r_directives_reset, repo)
     ctx.call(R6B.r_no_lookahead_at_doc_end, repo)
